@@ -92,8 +92,12 @@ class RealRG(CountingMixin, ReusableRandomGreedyOptimizer):
 
 def make_optimizer(cfg):
     kw = dict(directory=cfg.get("directory"), overwrite=cfg.get("overwrite", False),
-              hash_method=cfg.get("hash_method", "a"), cache_only=cfg.get("cache_only", False),
-              directory_split=cfg.get("split", "auto"))
+              cache_only=cfg.get("cache_only", False))
+    # "default" = the argument is not passed at all: the constructor's own default applies
+    if cfg.get("hash_method", "a") != "default":
+        kw["hash_method"] = cfg.get("hash_method", "a")
+    if cfg.get("split", "auto") != "default":
+        kw["directory_split"] = cfg.get("split", "auto")
     cls = cfg.get("cls", "hyper")
     if cls == "hyper":
         return ScriptedHyper(**kw)
@@ -106,8 +110,13 @@ def make_optimizer(cfg):
     raise ValueError(cls)
 
 
-def key_of(cfg, q, split):
-    h = hash_contraction(q["inputs"], q["output"], q["sizes"], cfg.get("hash_method", "a"))
+def key_of(cfg, q, split, method=None):
+    """the key the optimizer uses; `method` = the optimizer's actual hash method when the
+    configuration leaves it to the constructor's default"""
+    m = cfg.get("hash_method", "a")
+    if m == "default":
+        m = method or "a"
+    h = hash_contraction(q["inputs"], q["output"], q["sizes"], m)
     return (h[:2], h[2:]) if split else h
 
 
@@ -167,7 +176,8 @@ def observe_op(opt, cfg, op):
     Script.current = op.get("ans")
     before = Script.searches
     obs = {"api": op.get("api", "search")}
-    k0 = key_of(cfg, q, opt.directory_split)
+    actual = getattr(opt, "_hash_method", None)
+    k0 = key_of(cfg, q, opt.directory_split, actual)
     obs["disk_before"] = disk_entry(cfg, q, k0)
     try:
         if obs["api"] == "update":
@@ -216,7 +226,7 @@ def observe_op(opt, cfg, op):
             obs["searched_con"] = {"error": repr(e)[:100]}
     # the stored entry of this query's key, as this process' DiskDict now sees it
     split = opt.directory_split
-    k = key_of(cfg, q, split)
+    k = key_of(cfg, q, split, actual)
     obs["key"] = "/".join(k) if isinstance(k, tuple) else k
     try:
         mem = opt._cache[k]
@@ -247,6 +257,7 @@ class _Instr:
         self.events = []
         self.nboundary = 0
         self.written = 0
+        self.open_files = []
 
     def rel(self, p):
         try:
@@ -293,6 +304,9 @@ class _Instr:
                 return
             self.boundary()
             self.events.append({"op": "rename", "s": s, "d": d})
+            for f in self.open_files:      # an open descriptor follows its file
+                if f._rel == s and not f._raw.closed:
+                    f._rel = d
         elif event in ("os.remove", "os.rmdir"):
             rel = self.rel(args[0])
             if rel is None:
@@ -305,13 +319,26 @@ class _Instr:
 
 
 class _CrashFile:
-    """unbuffered file whose process dies once `k` bytes in total have reached the OS"""
+    """binary file object that buffers like Python's own (nothing reaches the OS before flush /
+    close) and whose process dies once `k` bytes in total have reached the OS; every transfer is
+    recorded as an `append` to the path the descriptor has *at that moment* (renames tracked)"""
 
     def __init__(self, raw, rel, instr):
         self._raw, self._rel, self._instr = raw, rel, instr
+        self._buf = b""
+        instr.open_files.append(self)
 
     def write(self, data):
         data = bytes(data)
+        self._buf += data
+        if len(self._buf) >= 1 << 16:   # (io.DEFAULT_BUFFER_SIZE-like behaviour for big entries)
+            self._emit()
+        return len(data)
+
+    def _emit(self):
+        data, self._buf = self._buf, b""
+        if not data:
+            return
         ins = self._instr
         if ins.crash["kind"] == "bytes" and ins.written + len(data) >= ins.crash["k"]:
             part = data[: ins.crash["k"] - ins.written]
@@ -323,7 +350,33 @@ class _CrashFile:
             n += os.write(self._raw.fileno(), data[n:])
         ins.written += len(data)
         ins.events.append({"op": "append", "p": self._rel, "b": list(data)})
-        return len(data)
+
+    def flush(self):
+        self._emit()
+
+    def fileno(self):
+        return self._raw.fileno()
+
+    def close(self):
+        if not self._raw.closed:
+            self._emit()
+            self._raw.close()
+
+    def seek(self, *a):
+        self._emit()
+        return self._raw.seek(*a)
+
+    def truncate(self, *a):
+        self._emit()
+        return self._raw.truncate(*a)
+
+    def tell(self):
+        self._emit()
+        return self._raw.tell()
+
+    def read(self, *a):
+        self._emit()
+        return self._raw.read(*a)
 
     def __getattr__(self, name):
         return getattr(self._raw, name)
@@ -332,11 +385,17 @@ class _CrashFile:
         return self
 
     def __exit__(self, *a):
-        self._raw.close()
+        self.close()
         return False
 
     def __iter__(self):
         return iter(self._raw)
+
+    def __del__(self):
+        try:
+            self.close()
+        except Exception:  # noqa: BLE001
+            pass
 
 
 def install_instrumentation(root, crash):
